@@ -22,8 +22,8 @@ RULE = (
     "when its oracle set is neither empty nor everything; distinct by (X, mode, chunk)."
 )
 ASSUMPTIONS = [
-    "for a member that contains a case-insensitive literal only ASCII code points are compared against the "
-    "explicit set (case-insensitivity is specified for ASCII input only)",
+    "case-insensitive literals fold ASCII letters only (pest's eq_ignore_ascii_case): a one-character ASCII "
+    "case-insensitive literal accepts exactly its two ASCII case variants among all 1,114,112 code points",
     "a grammar text that the front end rejects is counted (frontend_rejected) and left to C10",
 ]
 SPECIALS = [0x7F, 0x80, 0xFF, 0x100, 0x130, 0x131, 0x17F, 0x1E9E, 0x212A, 0x212B, 0xD7FF, 0xD800, 0xDBFF,
@@ -128,7 +128,8 @@ def member_pred(x):
         return (lambda ch: ch == c), False
     if k == "ci":
         c = x[1]
-        return (lambda ch: ch in (c.lower(), c.upper())), True
+        # pest folds ASCII letters only: the ASCII case variants of c and nothing else, for every code point
+        return (lambda ch: ch in (c.lower(), c.upper())), False
     if k == "range":
         lo, hi = x[1], x[2]
         return (lambda ch: lo <= ch <= hi), False
